@@ -36,7 +36,11 @@ RULE = ("Generated terminating programs (FOR/WHILE loops across and inside lines
         "interruption point, all points of each program are taken (capped at 60, evenly thinned "
         "beyond). A program is non-trivial if at least one of its interruption points lies inside "
         "a loop, a subroutine or an error handler, or has a file open; distinct = distinct program "
-        "text. Tampering: every byte position of a real state file (quick tier: header, first and "
+        "text; plus 'conversations' built by construction - consecutive buffer operations on one "
+        "open file (PRINT#/WRITE#/INPUT#/LINE INPUT# on a RANDOM record buffer with PUT/GET, "
+        "sequential output mid-line with WIDTH, INPUT# mid-line, implicit GET/PUT record pointer, "
+        "SCRN:/LPT1: device columns) with every boundary between two operations taken (labels "
+        "interrupt-between-ops:<kind>), in the random programs and in a directed unit. Tampering: every byte position of a real state file (quick tier: header, first and "
         "last 2 kB and every 4th byte between; thorough tier: every byte of two files) "
         "x {one of xor 1/xor 0x80/set 0/set 0xFF (all four in the thorough tier)}, truncation at "
         "every 8th byte and throughout the first/last 64 bytes (every byte in the thorough tier), "
@@ -165,9 +169,21 @@ def is_boundary(s):
     return f.f_code.co_name == 'parse' and bool(s.impl.interpreter.run_mode)
 
 
+CONV_KINDS = ['rnd-stream', 'seq-midline', 'input-midline', 'getput-pointer', 'device-column']
+
+
 def boundary_state(s):
     it = s.impl.interpreter
     labs = []
+    try:
+        # conversations on one open file set K% after their first operation and clear it before
+        # the last: a boundary seen with K% set lies between two operations on the same file
+        k = int(s.get('K%'))
+        if 1 <= k <= len(CONV_KINDS):
+            labs.append('interrupt-between-ops:' + CONV_KINDS[k - 1])
+    except Exception as e:              # noqa: B902
+        if type(e).__name__ == 'CaseTimeout':
+            raise
     if it.for_stack:
         labs.append('k:in-for')
     if it.while_stack:
@@ -397,7 +413,7 @@ def check_resume(case, res):
         if nfail >= 4:
             break
     res.nt(bool(seen & {'k:in-for', 'k:in-while', 'k:in-gosub', 'k:in-error-handler',
-                        'k:file-open'}))
+                        'k:file-open'}) or any(x.startswith('interrupt-between-ops') for x in seen))
     res.label('boundaries:%s' % ('1-10' if len(calls) <= 10 else '11-30' if len(calls) <= 30
                                  else '31-60' if len(calls) <= 60 else '>60'))
     if ref.errors:
@@ -618,6 +634,58 @@ ERRS = ['ERROR {e}', 'C=1/(Z*0)', 'A=R(99)', 'T$=MID$(S$,0)', 'B=VAL("1E99")*1E3
         'N%=40000', 'RETURN', 'READ C,C,C,C,C,C,C,C,C', 'NEXT', 'GOTO 64999']
 
 
+def conv_statements(kind, ints):
+    """Statements of one 'conversation': consecutive buffer operations on the same open file."""
+    ent = list(ints) + [0] * 24
+    it = iter(ent)
+
+    def pick(seq):
+        return seq[next(it) % len(seq)]
+    n = 3 + next(it) % 5
+    ops = []
+    if kind == 'rnd-stream':
+        first = 'OPEN "R",1,"RS.DAT",%d' % pick([32, 32, 24, 64])
+        if next(it) % 2:
+            first += ':FIELD 1,8 AS X$,8 AS Y$'
+        pool = ['PRINT#1,"F";I;",";', 'PRINT#1,A;', 'PRINT#1,S$;",";', 'WRITE#1,N%,"w"', 'PRINT#1,"END"',
+                'PUT 1,1', 'PUT 1', 'GET 1,1', 'GET 1', 'INPUT#1,T$', 'INPUT#1,U$', 'INPUT#1,A', 'LINE INPUT#1,S$',
+                'C=LOC(1)', 'C=LOF(1)', 'B=EOF(1)', 'LSET X$="lx"', 'PRINT#1,USING "##";N%;', 'U$=INPUT$(2,1)',
+                'PRINT#1,",q,";']
+        # a typical round: compose a record, write it, read it back item by item
+        ops = ['PRINT#1,"F";N%;",";', 'PRINT#1,"G,";', 'PRINT#1,"END"', 'PUT 1,1', 'GET 1,1', 'INPUT#1,T$',
+               'INPUT#1,U$'][:n] if next(it) % 3 == 0 else []
+        ops += [pick(pool) for _ in range(n)]
+        last = 'PUT 1,2:CLOSE 1'
+    elif kind == 'seq-midline':
+        first = pick(['OPEN "O",1,"SM.TXT"', 'OPEN "A",1,"SM.TXT"', 'OPEN "SM.TXT" FOR OUTPUT AS 1:WIDTH #1,20'])
+        pool = ['PRINT#1,"a";', 'PRINT#1,A;', 'PRINT#1,"b",', 'PRINT#1,TAB(12);"t";', 'WRITE#1,A,S$', 'PRINT#1,',
+                'PRINT#1,SPC(3);N%;', 'PRINT#1,STRING$(15,"x");', 'C=LOC(1)', 'C=LOF(1)', 'PRINT#1,USING "###.#";A;',
+                'PRINT#1,"end"', 'WIDTH #1,%d' % pick([10, 40, 255])]
+        ops = [pick(pool) for _ in range(n + 1)]
+        last = 'PRINT#1,"last":CLOSE 1'
+    elif kind == 'input-midline':
+        first = 'OPEN "I",1,"IN.TXT"'
+        pool = ['INPUT#1,T$', 'INPUT#1,A', 'IF NOT EOF(1) THEN INPUT#1,U$', 'IF NOT EOF(1) THEN LINE INPUT#1,S$',
+                'IF NOT EOF(1) THEN U$=INPUT$(2,1)', 'B=EOF(1)', 'C=LOC(1)', 'C=LOF(1)', 'IF NOT EOF(1) THEN INPUT#1,T$,U$']
+        ops = ['INPUT#1,T$'] + [pick(pool) for _ in range(n)]
+        last = 'C=LOC(1):CLOSE 1'
+    elif kind == 'getput-pointer':
+        first = 'OPEN "R",1,"GP.DAT",8:FIELD 1,4 AS X$,4 AS Y$'
+        pool = ['LSET X$=S$:PUT 1', 'PUT 1', 'GET 1', 'GET 1:T$=X$', 'PUT 1,%d' % pick([1, 2, 5]), 'GET 1,%d' % pick([1, 2, 3]),
+                'C=LOC(1)', 'C=LOF(1)', 'B=EOF(1)', 'RSET Y$=STR$(N%)', 'LSET X$=MKS$(A):PUT 1', 'GET 1:A=CVS(X$)']
+        ops = ['LSET X$="ab":PUT 1'] + [pick(pool) for _ in range(n)]
+        last = 'C=LOC(1):CLOSE 1'
+    else:
+        first = pick(['OPEN "SCRN:" FOR OUTPUT AS 1', 'OPEN "LPT1:" FOR OUTPUT AS 1', 'OPEN "SCRN:" FOR OUTPUT AS 1:WIDTH #1,10',
+                      'OPEN "LPT1:" FOR OUTPUT AS 1:WIDTH "LPT1:",12'])
+        pool = ['PRINT#1,"ab";', 'PRINT#1,A;', 'PRINT#1,STRING$(7,"x");', 'C=POS(0)', 'C=LPOS(1)', 'LPRINT "p";', 'LPRINT A',
+                'PRINT "s";', 'PRINT#1,TAB(5);"t";', 'PRINT#1,', 'WIDTH #1,%d' % pick([8, 20, 255]), 'C=CSRLIN*100+POS(0)',
+                'WIDTH LPRINT %d' % pick([5, 80])]
+        ops = [pick(pool) for _ in range(n + 1)]
+        last = 'C=LPOS(1)+POS(0):CLOSE 1'
+    return first, ops, last
+
+
 def fmt(template, n):
     return template.format(
         n=n, c=65 + n % 26, m=1 + n % 3, r=n % 6, q=n % 4, row=1 + (n * 3) % 23,
@@ -709,6 +777,23 @@ class Renderer(object):
         elif kind == 'err':
             # without a handler the first error would end the program: keep those programs going
             self.simple(node[1], node[2], ERRS if self.ir['handler'] else None)
+        elif kind == 'conv':
+            _, k, ints = node
+            if ctx or depth > 0:
+                self.simple(k, k)
+                return
+            first, ops, last = conv_statements(CONV_KINDS[k % len(CONV_KINDS)], ints)
+            for part in first.split(':'):
+                self.emit(part)
+            for i, op in enumerate(ops):
+                self.emit(op, last=op.startswith('IF '))
+                if i == 0:
+                    self.emit('K%%=%d' % (k % len(CONV_KINDS) + 1))
+                if i == len(ops) - 2:
+                    self.emit('K%=0')
+            self.emit('K%=0')
+            for part in last.split(':'):
+                self.emit(part)
         elif kind == 'file':
             _, which, body = node
             if which in ctx or depth > 0:
@@ -735,6 +820,7 @@ class Renderer(object):
         pre = []
         if ir['handler']:
             pre.append('ON ERROR GOTO @H')
+        pre.append('K%=0')
         pre.append('DIM R(5),Q$(3),G%(40)')
         pre.append('DEF FNF(X)=X*2+A')
         pre.append('DEF FNG$(X$)=LEFT$(X$+"fn",3)')
@@ -856,7 +942,9 @@ def strat_ir():
     body = st.lists(node, min_size=1, max_size=3)
     iobody = st.lists(st.one_of(io, io, node), min_size=1, max_size=4)
     filesec = st.tuples(st.just('file'), st.sampled_from(['out', 'in', 'rnd']), iobody)
-    mainbody = st.lists(st.one_of(node, node, filesec), min_size=1, max_size=5)
+    conv = st.tuples(st.just('conv'), st.integers(0, len(CONV_KINDS) - 1),
+                     st.lists(st.integers(0, 99), min_size=12, max_size=12))
+    mainbody = st.lists(st.one_of(node, node, filesec, conv), min_size=1, max_size=5)
     return st.fixed_dictionaries({
         'handler': st.sampled_from([0, 1, 1, 2, 3]),
         'seed': st.one_of(st.none(), st.integers(-5, 5)),
@@ -870,6 +958,28 @@ def strat_ir():
     })
 
 
+def gen_fileops(shard, nshards, tier, seed):
+    """Directed programs: for every file kind a conversation interrupted between any two of its
+    operations (all boundaries), a few variants per kind, inside and outside a loop."""
+    import random
+    variants = 2 if tier == 'quick' else 12
+    j = 0
+    for v in range(variants):
+        for k in range(len(CONV_KINDS)):
+            j += 1
+            if j % nshards != shard:
+                continue
+            rng = random.Random(1000 * v + k + (seed if tier == 'thorough' else 0))
+            ints = [rng.randrange(100) for _ in range(12)]
+            main = [('s', rng.randrange(40), rng.randrange(10)), ('conv', k, ints)]
+            if v % 2:
+                main.append(('for', 2, 1, [('s', 18, 1)], True))
+                main.append(('conv', (k + 2) % len(CONV_KINDS), [rng.randrange(100) for _ in range(12)]))
+            ir = {'handler': [1, 0, 2][v % 3], 'seed': None, 'screen': 0, 'tron': False, 'width40': False,
+                  'end': 0, 'main': main, 'subs': [], 'pack': [v % 3, k % 3, 1]}
+            yield render(ir)
+
+
 def strat_resume():
     return strat_ir().map(render)
 
@@ -879,6 +989,8 @@ def units(tier):
         Unit('resume', 'hyp', shards={'quick': 12, 'thorough': 16},
              examples={'quick': 4, 'thorough': 190},
              strategy=strat_resume, per_case_timeout=300.0),
+        Unit('fileops', 'enum', shards={'quick': 2, 'thorough': 8}, gen=gen_fileops,
+             per_case_timeout=300.0),
         Unit('tamper', 'bulk', shards={'quick': 4, 'thorough': 16}, run=run_tamper,
              exhaustive=(tier == 'thorough')),
     ]
@@ -919,6 +1031,9 @@ KILLS = [
     "load_session without the format_version check -> tamper.format_version",
     "load_session without the python_minor check -> tamper.python_version",
     "load_session without the CRC comparison -> tamper.checksum, tamper.blob",
+    "seeded: FieldFile.__getstate__/__setstate__ drop the position inside the FIELD record buffer "
+    "-> diff.files, diff.vars, diff.output (fileops unit and random resume unit, boundaries "
+    "labelled interrupt-between-ops:rnd-stream)",
     "survives, equivalent since fix 498e4eab: dropping ins.seek(current_statement) in "
     "Interpreter.__setstate__ (the stream position is pickled and equals current_statement)",
 ]
